@@ -473,6 +473,55 @@ def rom_cases(ctx, rng):
     return n
 
 
+def memories_across_reset(ctx):
+    """a design kept in its own Block; the user resets the working block in between (for something unrelated) and then
+    adds a second memory to the design: the two memories stay two arrays in every simulator"""
+    rng = ctx.rng
+    n = 0
+    for k in range(ctx.n(4, 20)):
+        pyrtl.reset_working_block()
+        design = pyrtl.Block()
+        with pyrtl.set_working_block(design, no_sanity_check=True):
+            wa, wd, we, ra = Input(2, 'wa'), Input(8, 'wd'), Input(1, 'we'), Input(2, 'ra')
+            log = MemBlock(8, 2, 'log', asynchronous=True)
+            log[wa] <<= MemBlock.EnabledWrite(wd, we)
+            o1 = Output(8, 'o_log')
+            o1 <<= log[ra]
+        for _ in range(rng.randint(1, 2)):
+            pyrtl.reset_working_block()          # unrelated work elsewhere
+            junk = MemBlock(4, 1, 'junk') if rng.random() < 0.5 else None
+            del junk
+        with pyrtl.set_working_block(design, no_sanity_check=True):
+            shadow = MemBlock(8, 2, 'shadow', asynchronous=True)
+            we2 = Input(1, 'we2')
+            shadow[wa] <<= MemBlock.EnabledWrite(wd, we2)
+            o2 = Output(8, 'o_shadow')
+            o2 <<= shadow[ra]
+        L, S = [0] * 4, [0] * 4
+        steps, want = [], []
+        for c in range(8):
+            st = {'wa': rng.randrange(4), 'wd': rng.randrange(1, 256), 'we': rng.randrange(2), 'we2': int(rng.random() < 0.25), 'ra': rng.randrange(4)}
+            steps.append(st)
+            want.append((L[st['ra']], S[st['ra']]))
+            if st['we']:
+                L[st['wa']] = st['wd']
+            if st['we2']:
+                S[st['wa']] = st['wd']
+        for simcls in SIMS:
+            real = simrun.run_real(simcls, design, steps, {}, {}, 0, track=None)
+            n += 1
+            replay = {'kind': 'memories-across-reset', 'steps': steps, 'simulator': simcls.__name__}
+            if real['err'] is not None:
+                ctx.violation('mem-across-reset-raises:' + simcls.__name__, '%s raised %s: %s' % (simcls.__name__, real['err'][1], real['err'][2]), replay)
+                continue
+            got = list(zip(real['trace']['o_log'], real['trace']['o_shadow']))
+            if got != want:
+                c = next(i for i in range(len(want)) if got[i] != want[i])
+                ctx.violation('mem-across-reset:' + simcls.__name__, '%s: two memories of one design, the second created after a reset_working_block(): '
+                              'cycle %d reads (log, shadow) = %r, the arrays hold %r' % (simcls.__name__, c, got[c], want[c]), dict(replay, cycle=c))
+    return n
+
+
 def main(ctx):
     proofs_ok = proof_gate(ctx, gen_modules=[])
     rng = ctx.rng
@@ -506,6 +555,7 @@ def main(ctx):
         if len(ctx.violations) >= 5:
             break
     ctx.evaluations += special_shapes(ctx)
+    ctx.evaluations += memories_across_reset(ctx)
     ctx.evaluations += repeated_use(ctx)
     ex = exhaustive_two_word(ctx)
     ctx.evaluations += ex
